@@ -51,6 +51,9 @@ pub enum Ev {
     Release(u16),
     /// The explorer sent the interrupt signal.
     Interrupt,
+    /// A user future sent the interrupt signal itself while the call was being polled (at its
+    /// first poll or in the poll in which it completes).
+    InterruptMid,
     /// The subject is polled. `spurious` = although no wake-up was signalled.
     Poll { spurious: bool },
     /// The poll returned Pending; `woken` = a wake-up was signalled during the poll.
@@ -146,6 +149,10 @@ pub struct Shared {
     pub imm_choice: bool,
     /// Base schedule: every gate is ready on its first poll.
     pub imm_default: bool,
+    /// Sends the interrupt signal from inside a user future (mid-poll signals); None = not offered.
+    pub mid_int: Option<Box<dyn Fn()>>,
+    /// The signal was sent (by the explorer between polls or by a user future).
+    pub int_sent: bool,
 }
 
 pub type Sh = Rc<RefCell<Shared>>;
@@ -176,6 +183,8 @@ impl Shared {
             local: Vec::with_capacity(32),
             imm_choice,
             imm_default,
+            mid_int: None,
+            int_sent: false,
         }))
     }
 }
@@ -194,7 +203,8 @@ impl Future for Gate {
     fn poll(self: Pin<&mut Self>, cx: &mut Context<'_>) -> Poll<bool> {
         let mut s = self.sh.borrow_mut();
         let id = self.id;
-        if !s.first_polled[id] {
+        let first = !s.first_polled[id];
+        if first {
             s.first_polled[id] = true;
             if s.imm_choice {
                 let d = s.imm_default as usize;
@@ -204,6 +214,12 @@ impl Future for Gate {
             } else if s.imm_default {
                 s.released[id] = true;
             }
+        }
+        // a function may send the signal itself: when it first runs, or just before it returns
+        if s.mid_int.is_some() && !s.int_sent && (first || s.released[id]) && s.choose(2, 0) == 1 {
+            s.int_sent = true;
+            s.ev.push(Ev::InterruptMid);
+            (s.mid_int.as_ref().expect("checked"))();
         }
         if s.released[id] {
             s.ended[id] = true;
